@@ -301,6 +301,9 @@ M("C08", "twin-mentioned-symbols-set-call", GRM, "return {x for t in self.get_al
 
 # ------------------------------------------------------------------------------------- C11
 TU = "geneticengine/representations/tree/utils.py"
+M("C11", "terminal-node-stored-count-differs", TU, "            i.gengy_nodes = int(g.expansion_depthing)\n", "            i.gengy_nodes = 1\n", "C11.R7")
+M("C11", "twin-terminal-unit-local", TU, "        if not is_builtin(type(i)):\n            i.gengy_labeled = True\n            i.gengy_distance_to_term = int(g.expansion_depthing)\n",
+  "        unit = int(g.expansion_depthing)\n        if not is_builtin(type(i)):\n            i.gengy_labeled = True\n            i.gengy_distance_to_term = unit\n", "", expect="silent")
 M("C11", "create-node-returns-unwrapped", INI, "            v = apply_constructor(starting_symbol, args)\n            return wrap_result(v, global_context, context)", "            v = apply_constructor(starting_symbol, args)\n            return v", "C11.R1")
 M("C11", "tree-mutate-skips-relabel", TB, "    relabeled_new_tree = relabel_nodes_of_trees(new_tree, g)\n    return relabeled_new_tree", "    return new_tree", "C11.R1",
   extra=[(TB, "        return wrap_result(v, global_context, i.gengy_synthesis_context)\n", "        return v\n")])
